@@ -136,6 +136,53 @@ def C09(tier, seed):
     return _seg("C09", tier, seed, specs, en)
 
 
+def _export_runs(prop, tier, ops):
+    from harness import export, export_replay
+    from .core import Run
+
+    n = 3 if tier == "quick" else 4
+    runs = []
+    for name, cfg in ops:
+        c = dict(N=n, props=[prop])
+        c.update(cfg)
+        if tier != "quick" and c.get("seg", True):
+            c["shape"] = (3, 1, 2)
+        runs.append(Run(f"export:{name}:N={n}", export.harness, c, export_replay.replay,
+                        ("exported",), f"solution forest on <= {n} node slots (all shapes, symbolic times/ids), every "
+                        f"subset of its nodes as selection, label array with arbitrary non-negative symbolic labels"))
+    return runs
+
+
+EXPORT_ASSUME = [
+    "I/O boundary: setup_zarr_group/array, geff.write, pandas.DataFrame/to_csv, tifffile.imwrite, skimage map_array, "
+    "open/json.dump/np.save capture their arguments; what pandas/geff/zarr do with the captured values is out of reach "
+    "(a counterexample is replayed end to end through the real writers and read back)",
+    "pre-state: forward binary forest with symbolic times and ids; node positions concrete floats",
+]
+EXPORT_STUBS = ["zarr/geff/pandas/tifffile/map_array/json/np.save -> capturing stubs", "networkx.DiGraph -> SymDiGraph "
+                "(networkx's own ancestors/subgraph/copy run on it)", "numpy ndarray -> SArr"]
+
+
+def C15(tier, seed):
+    ops = [("geff", dict(op="geff")), ("csv", dict(op="csv")), ("csv:display", dict(op="csv", display_names=True)),
+           ("csv:export_seg", dict(op="csv", export_seg=True)), ("geff:noseg", dict(op="geff", seg=False)),
+           ("csv:noseg:per_axis_pos", dict(op="csv", seg=False, multi_pos=True))]
+    return run_property("C15", tier, _export_runs("C15", tier, ops), explanation=R.EXPL, seed=seed,
+                        assumptions=EXPORT_ASSUME, stubs=EXPORT_STUBS)
+
+
+def C16(tier, seed):
+    ops = [("geff", dict(op="geff")), ("geff:full", dict(op="geff", select=False)),
+           ("geff:scale_given", dict(op="geff", scale="given")),
+           ("geff:noseg:per_axis_pos", dict(op="geff", seg=False, multi_pos=True)),
+           ("csv", dict(op="csv")), ("csv:full:display", dict(op="csv", select=False, display_names=True)),
+           ("csv:export_seg", dict(op="csv", export_seg=True)), ("save", dict(op="save", select=False)),
+           ("save:noseg", dict(op="save", select=False, seg=False, scale="given")),
+           ("queries", dict(op="queries", select=False)), ("queries:noseg", dict(op="queries", select=False, seg=False))]
+    return run_property("C16", tier, _export_runs("C16", tier, ops), explanation=R.EXPL, seed=seed,
+                        assumptions=EXPORT_ASSUME, stubs=EXPORT_STUBS)
+
+
 def replay_file(prop, path):
     from harness import labels, relabel, seg_replay, step_replay
 
@@ -151,6 +198,10 @@ def replay_file(prop, path):
         fn = labels.bytrack_replay
     elif run in ("relabel_segmentation", "handle_segmentation"):
         fn = relabel.replay
+    elif run.startswith("export:"):
+        from harness import export_replay
+
+        fn = export_replay.replay
     ok, detail = fn(v)
     print(("VIOLATION property=%s replay=%s" % (prop, path)) if ok else "not reproduced")
     print(detail)
